@@ -30,8 +30,13 @@ func init() {
 	commands["c04child"] = func(args []string) error {
 		fs := flag.NewFlagSet("c04child", flag.ExitOnError)
 		dir := fs.String("dir", "", "")
+		genID := fs.Bool("gen-id", false, "let the store generate its root id")
 		fs.Parse(args)
-		in, err := startInstance(instOpts{dir: *dir, id: "crash-inst"})
+		o := instOpts{dir: *dir, id: "crash-inst"}
+		if *genID {
+			o = instOpts{dir: *dir, genID: true}
+		}
+		in, err := startInstance(o)
 		if err != nil {
 			return err
 		}
@@ -65,8 +70,8 @@ func init() {
 			stderr *strings.Builder
 			done   chan struct{}
 		}
-		start := func(dir, crashAt string) (*child, error) {
-			cmd := exec.Command(self, "c04child", "--dir", dir)
+		start := func(dir, crashAt string, genID bool) (*child, error) {
+			cmd := exec.Command(self, "c04child", "--dir", dir, fmt.Sprintf("--gen-id=%v", genID))
 			cmd.Env = append(os.Environ(), "VERIF_CRASH_AT="+crashAt)
 			stdout, _ := cmd.StdoutPipe()
 			c := &child{cmd: cmd, stderr: &strings.Builder{}, done: make(chan struct{})}
@@ -114,6 +119,14 @@ func init() {
 			var root string
 			var key []byte
 			db.QueryRow("SELECT root_id, jwt_key FROM meta").Scan(&root, &key)
+			// the instance has exactly one root: one edge below the sentinel, and it is the recorded one
+			var roots int
+			var down string
+			db.QueryRow("SELECT count(*) FROM edges WHERE up='root'").Scan(&roots)
+			db.QueryRow("SELECT down FROM edges WHERE up='root'").Scan(&down)
+			if roots != 1 || down != root {
+				return fmt.Sprintf("INCONSISTENT(%d root edges, meta %q, edge %q)", roots, root, down), fmt.Sprintf("%x", key)
+			}
 			return root, fmt.Sprintf("%x", key)
 		}
 		type batch struct {
@@ -218,18 +231,21 @@ func init() {
 		}
 
 		// one experiment; armAfter: number of batches acknowledged before the crash site is armed
-		experiment := func(name, site string, k, armAfter int, randomKill time.Duration) {
+		experiment := func(name, site string, k, armAfter int, randomKill time.Duration, atStart bool) {
 			dir, _ := os.MkdirTemp("", "verif-c04-")
 			defer os.RemoveAll(dir)
 			var tr []map[string]any
 			add := func(e map[string]any) { tr = append(tr, e) }
 			add(map[string]any{"ev": "Reset", "experiment": name})
-			initCrash := strings.HasPrefix(site, "init.")
+			initCrash := strings.HasPrefix(site, "init.") || atStart
+			// first-time initialisation is crashed both with a configured root id and with the
+			// production default, where the store draws the id itself
+			genID := strings.HasSuffix(name, "/gen")
 			envSpec := ""
 			if initCrash {
 				envSpec = fmt.Sprintf("%s#%d", site, k)
 			}
-			c, err := start(dir, envSpec)
+			c, err := start(dir, envSpec, genID)
 			present := map[string]string{}
 			rootBefore, keyBefore := "", ""
 			token := ""
@@ -314,7 +330,7 @@ func init() {
 				add(map[string]any{"ev": "Crash", "site": fmt.Sprintf("%s#%d after %d", site, k, armAfter)})
 			}
 			// ---- restart on the same file
-			c2, err := start(dir, "")
+			c2, err := start(dir, "", genID)
 			rec := map[string]any{"ev": "Recovered", "opens": err == nil, "rootSame": false, "keySame": false, "hashOK": false, "present": present}
 			if err == nil {
 				nc2, err := nats.Connect(c2.nats, nats.Timeout(5*time.Second), nats.MaxReconnects(0))
@@ -325,7 +341,7 @@ func init() {
 						// now reports over one more restart
 						rootBefore, keyBefore = rootAfter, keyAfter
 					}
-					rec["rootSame"] = rootAfter == rootBefore && rootAfter != "" && c2.root == rootAfter
+					rec["rootSame"] = rootAfter == rootBefore && rootAfter != "" && c2.root == rootAfter && !strings.HasPrefix(rootAfter, "INCONSISTENT")
 					rec["keySame"] = keyAfter == keyBefore && keyAfter != ""
 					bs = mkBatches(c2.root)
 					for _, b := range bs {
@@ -349,7 +365,7 @@ func init() {
 				<-c2.done
 				if initCrash {
 					// second restart: root and key stay
-					c3, err := start(dir, "")
+					c3, err := start(dir, "", genID)
 					if err != nil {
 						rec["opens"] = false
 					} else {
@@ -377,23 +393,30 @@ func init() {
 			name, site string
 			k, arm     int
 			kill       time.Duration
+			atStart    bool
 		}
 		var jobs []job
 		rng := rand.New(rand.NewSource(*seed))
 		for _, s := range sites {
 			for k := 1; k <= *occ; k++ {
-				jobs = append(jobs, job{fmt.Sprintf("%s#%d", s, k), s, k, rng.Intn(3), 0})
+				jobs = append(jobs, job{fmt.Sprintf("%s#%d", s, k), s, k, rng.Intn(3), 0, false})
+			}
+			// the same sites during first-time initialisation (initRoot writes through the same transactions)
+			for k := 1; k <= 3; k++ {
+				jobs = append(jobs, job{fmt.Sprintf("start:%s#%d", s, k), s, k, 0, 0, true})
+				jobs = append(jobs, job{fmt.Sprintf("start:%s#%d/gen", s, k), s, k, 0, 0, true})
 			}
 		}
 		for _, s := range initSites {
-			jobs = append(jobs, job{s + "#1", s, 1, 0, 0})
+			jobs = append(jobs, job{s + "#1", s, 1, 0, 0, false})
+			jobs = append(jobs, job{s + "#1/gen", s, 1, 0, 0, false})
 		}
 		for i := 0; i < *randomKills; i++ {
-			jobs = append(jobs, job{fmt.Sprintf("random-kill-%d", i), "", 0, rng.Intn(4), time.Duration(rng.Intn(9000)) * time.Microsecond})
+			jobs = append(jobs, job{fmt.Sprintf("random-kill-%d", i), "", 0, rng.Intn(4), time.Duration(rng.Intn(9000)) * time.Microsecond, false})
 		}
 		parallel(len(jobs), 8, func(i int) {
 			j := jobs[i]
-			experiment(j.name, j.site, j.k, j.arm, j.kill)
+			experiment(j.name, j.site, j.k, j.arm, j.kill, j.atStart)
 		})
 		f, err := os.Create(*traceOut)
 		if err != nil {
